@@ -158,6 +158,42 @@ def run(ck, w):
     else:
         ck.ok(o)
 
+    o = ck.ob("C15.2c", "Exclude::from_patterns_and_files consumes ALL the patterns and ALL the pattern files it is given: its only Ok result is built "
+                        "from the GlobSetBuilder that received them (no shortcut returns an empty or partial set)")
+    fpf = lib.bodies.get("excludes::Exclude::from_patterns_and_files")
+    if fpf is None:
+        ck.fail(o, "excludes::Exclude::from_patterns_and_files", "anchor-missing", "not found")
+    else:
+        oks_ = [(bb, st) for bb, j, st in rules.agg_sites(fpf, "std::result::Result", "Ok") if st["pl"]["l"] == 0]
+        probs_ = []
+        for bb, st in oks_:
+            ro = flow.origins_x(lib, fpf, st["rv"]["ops"][0], through_calls=[r"Try>?::branch$"])
+            rc = flow.origin_calls(ro)
+            if not any(c.endswith("GlobSetBuilder::build") for c in rc) or any(c.endswith("Exclude::nothing") or c.endswith("GlobSet::empty") for c in rc):
+                probs_.append("an Ok result is not built from the filled GlobSetBuilder (%s)" % sorted(c.split("::")[-1] for c in rc))
+        loops = [e for e in fpf.events if e.bb in fpf.live and e.callee == "std::iter::Iterator::next"]
+        srcs_ = set()
+        for e in loops:
+            for x in flow.origins_x(lib, fpf, e.args[0], through_calls=[r"IntoIterator>?::into_iter$"]):
+                if x[0] == "param":
+                    srcs_.add(x[1])
+        adapters_ = {x[1] for e in fpf.events if e.bb in fpf.live and re.search(r"Iterator>?::(try_for_each|for_each|try_fold)$", e.name)
+                     for x in flow.origins_x(lib, fpf, e.args[0], through_calls=[r"IntoIterator>?::into_iter$"]) if x[0] == "param"}
+        if not ({"exclude", "exclude_from"} <= (srcs_ | adapters_)):
+            probs_.append("not both inputs are iterated (iterated: %s)" % sorted(srcs_ | adapters_))
+        builds = [e for e in fpf.events if e.bb in fpf.live and e.name.endswith("GlobSetBuilder::build")]
+        for e in loops:
+            # each loop is unavoidable before the build
+            if builds and not all(fpf.must_pass_nodes({e.bb}, b_.bb) for b_ in builds):
+                probs_.append("an input loop can be bypassed before the set is built")
+        if not oks_:
+            probs_.append("no Ok return")
+        if probs_:
+            for m_ in sorted(set(probs_)):
+                ck.fail(o, fpf.name, m_.split(" (")[0], m_)
+        else:
+            ck.ok(o, "%d Ok return(s)" % len(oks_), instances=len(oks_))
+
     # ---- 3. prune really prunes ---------------------------------------------------------------------------------
     o = ck.ob("C15.3", "source walk: a child is queued (as an entry, or as a directory to descend into) only after Exclude::matches was false")
     if m:
